@@ -274,6 +274,34 @@ class C05(Prop):
                 if not o['answered'] and not o['closed']:
                     out.append(Failure({'kind': 'session', 'proto': p, 'msgs': [list(m[:200]) for m in msgs], 'lens': [len(m) for m in msgs]}, o,
                                        'after these messages the session neither answers a valid request nor has closed the connection'))
+        # nesting at the edge of what the JSON decoder accepts: values that can just be decoded but - echoed in a reply one or
+        # two levels further down - cannot be encoded any more.  Every depth around the decoder's limit, as id and as params
+        import json as _json
+        lo, hi = 1, 200000
+        while lo < hi:
+            mid = (lo + hi + 1) // 2
+            try:
+                _json.loads('[' * mid + ']' * mid)
+                lo = mid
+            except (RecursionError, ValueError):
+                hi = mid - 1
+        edge = lo
+        for p in ('v1', 'v2', 'loose', 'auto'):
+            for where in ('id', 'params', 'idobj'):
+                for d in range(max(1, edge - 60), edge + 6, 1 if ctx['tier'] != 'quick' else (1 if where == 'id' else 3)):
+                    deep = (b'[' * d + b']' * d) if where != 'idobj' else (b'{"a":' * d + b'1' + b'}' * d)
+                    head = b'{"jsonrpc":"2.0",' if p != 'v1' else b'{'
+                    msg = head + (b'"method":"ping","params":[],"id":' + deep if where != 'params' else b'"method":"ping","id":5,"params":' + deep) + b'}'
+                    o = session_survives([msg], p)
+                    ctx['extra_evals'] += 1
+                    ctx['extra_nontrivial'] += 1
+                    k = 'edge_' + ('answered' if o['answered'] else 'closed' if o['closed'] else 'WEDGED')
+                    ctx['hist'][k] = ctx['hist'].get(k, 0) + 1
+                    if not o['answered'] and not o['closed']:
+                        out.append(Failure({'kind': 'nesting_edge', 'proto': p, 'where': where, 'depth': d, 'decoder_limit_here': edge}, o,
+                                           f'after a request whose {where} is nested {d} deep the session neither answers a valid request nor has closed the connection'))
+                        break
+        ctx['notes'].append(f'nesting at the decoder\'s limit ({edge} here): every depth from {max(1, edge - 60)} to {edge + 5} as id / params, 4 protocol classes, through a serving session')
         # the same for byte STREAMS that are not cut at message boundaries: an over-long line arriving in pieces, then a
         # valid request arriving in pieces right behind it
         combos = [(j1, j2, cut, ch) for j1 in (201, 450, 1000) for j2 in (0, 150, 199) for cut in (0, 1, 30) for ch in (64, 199, 1000)]
